@@ -110,6 +110,14 @@ func (r *runner) round(ctx context.Context, rnd *hx.Rand, round int) error {
 		{"share0=other-keyper's", func(m *p2pmsg.DecryptionKeyShares) { m.Shares[0].Share = shareMsgs[n-1].Shares[0].Share }},
 		{"share0=other-identity's", func(m *p2pmsg.DecryptionKeyShares) { m.Shares[0].Share = otherShare.Share }},
 		{"share1=share0", func(m *p2pmsg.DecryptionKeyShares) { m.Shares[1].Share = m.Shares[0].Share }},
+		{"share1=other-keyper's", func(m *p2pmsg.DecryptionKeyShares) { m.Shares[1].Share = shareMsgs[n-1].Shares[1].Share }},
+		{"dup-identity,share1=other-keyper's-for-it", func(m *p2pmsg.DecryptionKeyShares) {
+			m.Shares[1] = &p2pmsg.KeyShare{IdentityPreimage: m.Shares[0].IdentityPreimage, Share: shareMsgs[n-1].Shares[0].Share}
+		}},
+		{"dup-identity,share1-kept", func(m *p2pmsg.DecryptionKeyShares) { m.Shares[1].IdentityPreimage = m.Shares[0].IdentityPreimage }},
+		{"dup-identity,share1=random", func(m *p2pmsg.DecryptionKeyShares) {
+			m.Shares[1] = &p2pmsg.KeyShare{IdentityPreimage: m.Shares[0].IdentityPreimage, Share: otherShare.Share}
+		}},
 		{"share0=random", func(m *p2pmsg.DecryptionKeyShares) { m.Shares[0].Share = rnd.Bytes(len(m.Shares[0].Share)) }},
 		{"share0=truncated", func(m *p2pmsg.DecryptionKeyShares) { m.Shares[0].Share = m.Shares[0].Share[:len(m.Shares[0].Share)-1] }},
 		{"share1=empty", func(m *p2pmsg.DecryptionKeyShares) { m.Shares[1].Share = nil }},
@@ -145,6 +153,11 @@ func (r *runner) round(ctx context.Context, rnd *hx.Rand, round int) error {
 		{"eon+2^32", func(m *p2pmsg.DecryptionKeys) { m.Eon += 1 << 32 }},
 		{"eon=2^63", func(m *p2pmsg.DecryptionKeys) { m.Eon = 1 << 63 }},
 		{"key0=key1", func(m *p2pmsg.DecryptionKeys) { m.Keys[0].Key = m.Keys[1].Key }},
+		{"key1=key0", func(m *p2pmsg.DecryptionKeys) { m.Keys[1].Key = m.Keys[0].Key }},
+		{"dup-identity,key1=key0's-bytes-kept", func(m *p2pmsg.DecryptionKeys) { m.Keys[1].IdentityPreimage = m.Keys[0].IdentityPreimage }},
+		{"rotated-3", func(m *p2pmsg.DecryptionKeys) {
+			m.Keys = []*p2pmsg.Key{m.Keys[0], m.Keys[1], proto.Clone(m.Keys[0]).(*p2pmsg.Key)}
+		}},
 		{"key0=a-share", func(m *p2pmsg.DecryptionKeys) { m.Keys[0].Key = valid.Shares[0].Share }},
 		{"key0=random", func(m *p2pmsg.DecryptionKeys) { m.Keys[0].Key = rnd.Bytes(len(m.Keys[0].Key)) }},
 		{"key1=truncated", func(m *p2pmsg.DecryptionKeys) { m.Keys[1].Key = m.Keys[1].Key[:len(m.Keys[1].Key)-1] }},
@@ -175,6 +188,13 @@ func (r *runner) round(ctx context.Context, rnd *hx.Rand, round int) error {
 		}},
 		{"+key0-stored-as-key1's-bytes", func(st *kdb.DB) { // a stored value that is not the valid key: equality still short-cuts
 			st.DecryptionKey = append(st.DecryptionKey, kdb.DecryptionKeyRow{Eon: int64(fx.ConfigIndex), EpochID: keysMsg.Keys[0].IdentityPreimage, DecryptionKey: keysMsg.Keys[1].Key})
+		}},
+		{"+key1-stored-identical", func(st *kdb.DB) {
+			st.DecryptionKey = append(st.DecryptionKey, kdb.DecryptionKeyRow{Eon: int64(fx.ConfigIndex), EpochID: keysMsg.Keys[1].IdentityPreimage, DecryptionKey: keysMsg.Keys[1].Key})
+		}},
+		{"+both-stored-identical", func(st *kdb.DB) {
+			st.DecryptionKey = append(st.DecryptionKey, kdb.DecryptionKeyRow{Eon: int64(fx.ConfigIndex), EpochID: keysMsg.Keys[0].IdentityPreimage, DecryptionKey: keysMsg.Keys[0].Key},
+				kdb.DecryptionKeyRow{Eon: int64(fx.ConfigIndex), EpochID: keysMsg.Keys[1].IdentityPreimage, DecryptionKey: keysMsg.Keys[1].Key})
 		}},
 		{"+key0-stored-for-other-set", func(st *kdb.DB) {
 			st.DecryptionKey = append(st.DecryptionKey, kdb.DecryptionKeyRow{Eon: int64(fx.ConfigIndex) + 1, EpochID: keysMsg.Keys[0].IdentityPreimage, DecryptionKey: keysMsg.Keys[1].Key})
